@@ -208,7 +208,15 @@ def rule_negotiated(R):
     roles.clause_negotiated_per_connection(R, "usable", ("maximum_packet_size", "max_qos", "send_quota", "max_send_quota"))
 
 
+def rule_shared_atomic(R):
+    """a handshake that is rejected leaves no trace: nothing from a CONNACK is written into session state (by a store or by a
+    call handed `&mut` of a state field) while its property block is still being examined -- C08's rule"""
+    from .c08 import rule_atomic as _r
+    _r(R)
+
+
 def run(R):
+    R.rule("atomic", rule_shared_atomic)
     R.rule("negotiated", rule_negotiated)
     R.rule("tail", rule_tail)
     R.rule("usable", rule_usable)
